@@ -528,6 +528,22 @@ func c03EmptyTexts(r *c03Rec) []*[]string {
 	return out
 }
 
+// c03TextField is the width of the text field of a keyword line (columns
+// 13-80).
+const c03TextField = 68
+
+// c03HasLongToken: one of the single-spaced words is longer than the text field.
+func c03HasLongToken(paras []string) bool {
+	for _, para := range paras {
+		for _, w := range strings.Split(para, " ") {
+			if len(w) > c03TextField {
+				return true
+			}
+		}
+	}
+	return false
+}
+
 // slash positions: for every quoted qualifier, the word indexes that start a
 // continuation line with '/'.
 func c03ContSlashWords(q *c03Qual, width int) map[int]bool {
@@ -638,6 +654,11 @@ func c03Axes() []c03Axis {
 	ax = append(ax,
 		c03RecAxis("circular-topology", func(r *c03Rec) bool { return r.Topo == "circular" }, func(r *c03Rec) { r.Topo = "linear" }),
 		c03RecAxis("no-topology", func(r *c03Rec) bool { return r.Topo == "" }, func(r *c03Rec) { r.Topo = "linear" }),
+		// LOCUS columns a structured record leaves empty (all four empty = a
+		// bare LOCUS line: name and length only)
+		c03RecAxis("no-molecule-type", func(r *c03Rec) bool { return r.Mol == "" }, func(r *c03Rec) { r.Mol = "DNA" }),
+		c03RecAxis("no-division", func(r *c03Rec) bool { return r.Div == "" }, func(r *c03Rec) { r.Div = "SYN" }),
+		c03RecAxis("no-date", func(r *c03Rec) bool { return r.Date == "" }, func(r *c03Rec) { r.Date = "01-JAN-2000" }),
 		c03RecAxis("origin-trailing-blanks", func(r *c03Rec) bool { return r.OriginBlanks && !r.Structured }, func(r *c03Rec) { r.OriginBlanks = false }),
 		c03RecAxis("pubmed-indent-three",
 			func(r *c03Rec) bool {
@@ -811,6 +832,36 @@ func c03Axes() []c03Axis {
 					}
 				}
 			}),
+		// a blank-free token longer than the 68-column text field of a keyword
+		// line (a long URL): no wrapping can make it fit
+		c03RecAxis("unbreakable-token",
+			func(r *c03Rec) bool {
+				for _, t := range c03AllTexts(r) {
+					if c03HasLongToken(*t) {
+						return true
+					}
+				}
+				return false
+			},
+			func(r *c03Rec) {
+				for _, t := range c03AllTexts(r) {
+					for pi, para := range *t {
+						words := strings.Split(para, " ")
+						for wi, w := range words {
+							if len(w) > c03TextField {
+								// same length, a blank in every 21st place: the text
+								// still needs as many lines
+								b := []byte(w)
+								for k := 20; k < len(b)-1; k += 21 {
+									b[k] = ' '
+								}
+								words[wi] = string(b)
+							}
+						}
+						(*t)[pi] = strings.Join(words, " ")
+					}
+				}
+			}),
 		c03RecAxis("reference-remark",
 			func(r *c03Rec) bool {
 				for _, x := range r.Refs {
@@ -952,6 +1003,24 @@ func c03Blame(f *c03File, fails func(g *c03File) bool) (string, c03File) {
 				names = append(names, name)
 			}
 		}
+	}
+	// All four LOCUS columns after the length empty is one shape: a bare LOCUS
+	// line (name and length only).
+	bare := map[string]bool{"no-topology": true, "no-molecule-type": true, "no-division": true, "no-date": true}
+	nBare := 0
+	for _, n := range names {
+		if bare[n] {
+			nBare++
+		}
+	}
+	if nBare == len(bare) {
+		rest := []string{"bare-locus-line"}
+		for _, n := range names {
+			if !bare[n] {
+				rest = append(rest, n)
+			}
+		}
+		names = rest
 	}
 	if len(names) == 0 {
 		names = quantities
@@ -1231,6 +1300,70 @@ func c03MakeQual(rng *rand.Rand, key string, shape, width int) c03Qual {
 	return q
 }
 
+// c03LongToken: a blank-free token of n characters in the manner of a URL
+// (letters, digits and / . _ - = ? &; it does not end in '/').
+func c03LongToken(rng *rand.Rand, n int) string {
+	const head = "https://"
+	return head + c03Word(rng, c03Lower+c03Lower+c03Digits+"/._-=?&", n-len(head)-1, n-len(head)-1) + c03Word(rng, c03Lower+c03Digits, 1, 1)
+}
+
+// where c03PutToken puts the token in a text
+var c03TokenPositions = []string{"alone", "first", "middle", "last"}
+
+// c03PutToken: the token as the whole text, or as the first, a middle or the
+// last word of the first paragraph.
+func c03PutToken(t *[]string, tok string, pos int) {
+	if pos == 0 || len(*t) == 0 {
+		*t = []string{tok}
+		return
+	}
+	words := strings.Split((*t)[0], " ")
+	at := map[int]int{1: 0, 2: (len(words) + 1) / 2, 3: len(words)}[pos]
+	words = append(words[:at], append([]string{tok}, words[at:]...)...)
+	(*t)[0] = strings.Join(words, " ")
+}
+
+// the places of the unbreakable-token enumeration
+var c03TokenPlaces = []string{"DEFINITION", "KEYWORDS", "SOURCE", "ORGANISM", "AUTHORS", "TITLE", "JOURNAL", "REMARK", "COMMENT", "DBLINK"}
+
+// c03TokenRec: a 345-letter record with one feature, one complete reference, a
+// DBLINK and a COMMENT block; the text of the named place is two or three
+// lines of words with a token of n characters put at pos.
+func c03TokenRec(rng *rand.Rand, place string, pos, n int) c03Rec {
+	r := c03ShapeRec(rng, 345, 1, 1, c03VPlain, 1)
+	short := func(k int) []string { return []string{c03Text(rng, c03MetaAlpha, k)} }
+	r.Refs = []c03Ref{{Authors: short(30), Title: short(40), Journal: short(30), PubMed: c03Word(rng, c03Digits, 6, 8), Remark: short(30)}}
+	r.Others = []c03KV{{"DBLINK", []string{"BioProject: PRJNA" + c03Word(rng, c03Digits, 4, 6)}, true}, {"COMMENT", short(40), false}}
+	var t *[]string
+	switch place {
+	case "DEFINITION":
+		t = &r.Def
+	case "KEYWORDS":
+		t = &r.Kw
+	case "SOURCE":
+		t = &r.Src
+	case "ORGANISM":
+		t = &r.Org
+	case "AUTHORS":
+		t = &r.Refs[0].Authors
+	case "TITLE":
+		t = &r.Refs[0].Title
+	case "JOURNAL":
+		t = &r.Refs[0].Journal
+	case "REMARK":
+		t = &r.Refs[0].Remark
+	case "DBLINK":
+		t = &r.Others[0].Text
+	case "COMMENT":
+		t = &r.Others[1].Text
+	default:
+		panic("c03TokenRec: " + place)
+	}
+	*t = short(100 + rng.Intn(100))
+	c03PutToken(t, c03LongToken(rng, n), pos)
+	return r
+}
+
 // c03ShapeRec: the record of the exhaustive part. Every feature has the same
 // shape; content is random.
 func c03ShapeRec(rng *rand.Rand, n, nFeat, nq, vshape, locLines int) c03Rec {
@@ -1261,6 +1394,8 @@ type c03Profile struct {
 	MaxLen      int
 	ManyOthers  bool
 	EmptyTexts  bool // structured records only: ORGANISM or an extra keyword block may be given with no text
+	LongTokens  bool // one record in five gets a blank-free token of 69..300 characters in one of its texts
+	EmptyLocus  bool // structured records only: LOCUS columns after the length may be left empty
 }
 
 func c03RandLen(rng *rand.Rand, max int) int {
@@ -1440,7 +1575,66 @@ func c03RandRec(rng *rand.Rand, p c03Profile) c03Rec {
 			}
 		}
 	}
+	if p.LongTokens && rng.Intn(5) == 0 {
+		// a blank-free token longer than the text field in one of the texts
+		// (not ACCESSION or VERSION), the text staying within MaxMeta characters
+		var ts []*[]string
+		for _, t := range c03AllTexts(&r) {
+			if t != &r.Acc && t != &r.Ver && len(*t) > 0 {
+				ts = append(ts, t)
+			}
+		}
+		t := ts[rng.Intn(len(ts))]
+		tok := c03LongToken(rng, c03TextField+1+rng.Intn(232))
+		pi := rng.Intn(len(*t))
+		room := p.MaxMeta - (len(c03J(*t)) - len((*t)[pi])) - len(tok) - 1
+		var words []string
+		if room >= 1 {
+			words = strings.Split(c03Trunc((*t)[pi], room), " ")
+			if len(words[0]) > room {
+				words = nil
+			}
+		}
+		at := rng.Intn(len(words) + 1)
+		words = append(words[:at], append([]string{tok}, words[at:]...)...)
+		(*t)[pi] = strings.Join(words, " ")
+	}
+	if p.EmptyLocus && rng.Intn(6) == 0 {
+		// any non-empty subset of molecule type, topology, division, date left out
+		mask := 1 + rng.Intn(15)
+		c03EmptyLocus(&r, mask)
+	}
 	return r
+}
+
+// c03EmptyLocus empties the LOCUS columns named by mask: 1 molecule type,
+// 2 topology, 4 division, 8 date.
+func c03EmptyLocus(r *c03Rec, mask int) {
+	if mask&1 != 0 {
+		r.Mol = ""
+	}
+	if mask&2 != 0 {
+		r.Topo = ""
+	}
+	if mask&4 != 0 {
+		r.Div = ""
+	}
+	if mask&8 != 0 {
+		r.Date = ""
+	}
+}
+
+func c03LocusMaskName(mask int) string {
+	if mask == 0 {
+		return "none"
+	}
+	var out []string
+	for i, n := range []string{"molecule", "topology", "division", "date"} {
+		if mask&(1<<i) != 0 {
+			out = append(out, n)
+		}
+	}
+	return strings.Join(out, "+")
 }
 
 func c03Q(s string) string {
@@ -1669,17 +1863,29 @@ func c03ReadRecord(text string) (*c03Read, error) {
 	if len(lines) == 0 || !strings.HasPrefix(lines[0], "LOCUS       ") {
 		return nil, errors.New("no LOCUS keyword in columns 1-12 of line 1")
 	}
+	// name, length, "bp", then, each of them optional and told apart by its
+	// form, in this order: molecule type (a word ending in DNA or RNA),
+	// topology (linear or circular), division (three capitals), date (dd-MMM-yyyy)
 	tok := strings.Fields(lines[0][12:])
-	switch {
-	case len(tok) == 7 && (tok[4] == "linear" || tok[4] == "circular"):
-		rd.Name, rd.Length, rd.Mol, rd.Topo, rd.Div, rd.Date = tok[0], tok[1], tok[3], tok[4], tok[5], tok[6]
-	case len(tok) == 6:
-		rd.Name, rd.Length, rd.Mol, rd.Div, rd.Date = tok[0], tok[1], tok[3], tok[4], tok[5]
-	default:
-		return nil, errors.New("LOCUS line does not read as name, length, bp, molecule, [topology,] division, date: " + at(0))
-	}
-	if !c03AllDigits(rd.Length) || tok[2] != "bp" {
+	if len(tok) < 3 || !c03AllDigits(tok[1]) || tok[2] != "bp" {
 		return nil, errors.New("LOCUS line does not read as name, length, bp, ...: " + at(0))
+	}
+	rd.Name, rd.Length = tok[0], tok[1]
+	rest := tok[3:]
+	if len(rest) > 0 && (strings.HasSuffix(rest[0], "DNA") || strings.HasSuffix(rest[0], "RNA")) {
+		rd.Mol, rest = rest[0], rest[1:]
+	}
+	if len(rest) > 0 && (rest[0] == "linear" || rest[0] == "circular") {
+		rd.Topo, rest = rest[0], rest[1:]
+	}
+	if len(rest) > 0 && len(rest[0]) == 3 && strings.Trim(rest[0], c03Upper) == "" {
+		rd.Div, rest = rest[0], rest[1:]
+	}
+	if len(rest) > 0 && len(rest[0]) == 11 && rest[0][2] == '-' && rest[0][6] == '-' && c03AllDigits(rest[0][:2]) && c03AllDigits(rest[0][7:]) && strings.Trim(rest[0][3:6], c03Upper) == "" {
+		rd.Date, rest = rest[0], rest[1:]
+	}
+	if len(rest) > 0 {
+		return nil, errors.New("LOCUS line does not read as name, length, bp, [molecule,] [topology,] [division,] [date]: " + at(0))
 	}
 	// keyword blocks
 	var cur *string
@@ -2342,11 +2548,13 @@ func TestVerifC03(t *testing.T) {
 		nRand = 15000
 	}
 	tmp := t.TempDir()
-	prof := c03Profile{MaxMeta: 2000, MaxQuals: 8, MaxLen: 100000, ManyOthers: true}
+	prof := c03Profile{MaxMeta: 2000, MaxQuals: 8, MaxLen: 100000, ManyOthers: true, LongTokens: true}
 
 	src := "records r from three sources: (a) Parse of a file laid out by an independent NCBI-layout writer, (b) structured poly.Sequence with GbkLocationString set, (c) structured with SequenceLocation only (locations a..b, complement, join, complement(join), 5' partial); "
-	shapeDom := "shape enumeration: sequence length {7,12,345,1234,12345,100000} x qualifiers per feature {0,1,2,8} x value shape {plain,slash,equals,wrap,empty} x source {a,b,c}, two features, one reference with and without REMARK, 0..3 extra keyword blocks, DEFINITION up to 2000 characters in every third case; locus names of 1..24, 32 and 40 characters (16 = width of the name field in columns 13-28) x length {7,12,345} x source {a,b,c}, 4 molecule types x {linear,circular,none}; structured records (sources b, c) that carry a keyword with no text: {" + strings.Join(c03EmptyKinds, ", ") + "} empty (COMMENT, DBLINK = Meta.Other entries with empty text) x 0 or 1 reference x with or without a filled extra keyword; "
-	randDom := fmt.Sprintf("plus %d seeded-random records (sources cycling a,b,c): length 1..100000 (digit count uniform), locus name 1..40 characters (17..40 in one case of twelve), in structured records ORGANISM and/or an extra keyword text empty in up to three cases of eight, 0..40 features with 0..8 qualifiers (values over printable ASCII without the double quote, single-spaced words, up to 230 characters), 0..5 references with optional TITLE/PUBMED/REMARK, COMMENT/DBLINK/PROJECT/SEGMENT blocks, metadata texts up to 2000 characters; every 50th random case goes through Write and Read on a temporary file; ", nRand)
+	shapeDom := "shape enumeration: sequence length {7,12,345,1234,12345,100000} x qualifiers per feature {0,1,2,8} x value shape {plain,slash,equals,wrap,empty} x source {a,b,c}, two features, one reference with and without REMARK, 0..3 extra keyword blocks, DEFINITION up to 2000 characters in every third case; locus names of 1..24, 32 and 40 characters (16 = width of the name field in columns 13-28) x length {7,12,345} x source {a,b,c}, 4 molecule types x {linear,circular,none}; structured records (sources b, c) that carry a keyword with no text: {" + strings.Join(c03EmptyKinds, ", ") + "} empty (COMMENT, DBLINK = Meta.Other entries with empty text) x 0 or 1 reference x with or without a filled extra keyword; " +
+		"structured records (sources b, c) with every subset of the LOCUS columns {molecule type, topology, division, date} left empty (all four empty = a bare LOCUS line, name and length only) x length {7,345}; " +
+		"unbreakable tokens: one blank-free URL-like token of {69,100,300} characters (longer than the 68-column text field) as the whole text or as the first, a middle or the last word of two to three lines of text in each of {" + strings.Join(c03TokenPlaces, ", ") + "} (reference fields: of the one reference) x source {a,b,c} on a 345-letter record with one feature, one complete reference, DBLINK and COMMENT; "
+	randDom := fmt.Sprintf("plus %d seeded-random records (sources cycling a,b,c): length 1..100000 (digit count uniform), locus name 1..40 characters (17..40 in one case of twelve), in structured records ORGANISM and/or an extra keyword text empty in up to three cases of eight, 0..40 features with 0..8 qualifiers (values over printable ASCII without the double quote, single-spaced words, up to 230 characters), 0..5 references with optional TITLE/PUBMED/REMARK, COMMENT/DBLINK/PROJECT/SEGMENT blocks, metadata texts up to 2000 characters, in one record in five one blank-free token of 69..300 characters inside one of the texts (DEFINITION, KEYWORDS, SOURCE, ORGANISM, a reference field or an extra keyword block), in one structured record in six a non-empty subset of the LOCUS columns molecule type, topology, division, date left empty; every 50th random case goes through Write and Read on a temporary file; ", nRand)
 	runs := []*verifRun{
 		newVerifRun("C03", "io/genbank.Build/determinism", src+shapeDom+randDom+fmt.Sprintf("each record built %d times (64 times above 20000 letters), all outputs byte-identical; non-trivial = at least 2 Meta.Other keys or a feature with at least 2 qualifiers", c03Builds)),
 		newVerifRun("C03", "io/genbank.Build/post/roundtrip-no-panic", src+shapeDom+randDom+"Build(r) and Parse(Build(r)) return without a panic; every case counts; the field clauses below are evaluated on the cases that return"),
@@ -2498,12 +2706,57 @@ func TestVerifC03(t *testing.T) {
 		c03SetMode(&f, e.mode)
 		return c03Eval(fmt.Sprintf("empty-text=%s references=%d filled-extra-keyword=%v source=%s", e.what, e.nref, e.filledOther, c03ModeNames[e.mode]), &f, "")
 	})
+	// structured records that leave LOCUS columns after the length empty
+	type locus struct{ mask, n, mode int }
+	var loci []locus
+	for mask := 0; mask < 16; mask++ {
+		for _, n := range []int{7, 345} {
+			for mode := c03ModeCached; mode <= c03ModeUncached; mode++ {
+				loci = append(loci, locus{mask, n, mode})
+			}
+		}
+	}
+	c03Parallel(len(loci), runs, func(i int) []c03Out {
+		l := loci[i]
+		rng := c03Rng(5, i)
+		r := c03ShapeRec(rng, l.n, 1, 1, c03VPlain, 1)
+		if rng.Intn(2) == 0 {
+			r.Topo = "circular"
+		}
+		c03EmptyLocus(&r, l.mask)
+		f := c03File{Recs: []c03Rec{r}, FinalNL: true}
+		c03SetMode(&f, l.mode)
+		return c03Eval(fmt.Sprintf("empty-locus-columns=%s len=%d source=%s", c03LocusMaskName(l.mask), l.n, c03ModeNames[l.mode]), &f, "")
+	})
+	// a blank-free token longer than the text field of a keyword line
+	type token struct {
+		place        string
+		pos, n, mode int
+	}
+	var tokens []token
+	for _, place := range c03TokenPlaces {
+		for pos := range c03TokenPositions {
+			for _, n := range []int{69, 100, 300} {
+				for mode := 0; mode < 3; mode++ {
+					tokens = append(tokens, token{place, pos, n, mode})
+				}
+			}
+		}
+	}
+	c03Parallel(len(tokens), runs, func(i int) []c03Out {
+		k := tokens[i]
+		rng := c03Rng(6, i)
+		f := c03File{Recs: []c03Rec{c03TokenRec(rng, k.place, k.pos, k.n)}, FinalNL: true}
+		c03SetMode(&f, k.mode)
+		return c03Eval(fmt.Sprintf("unbreakable-token place=%s position=%s length=%d source=%s", k.place, c03TokenPositions[k.pos], k.n, c03ModeNames[k.mode]), &f, "")
+	})
 	c03Parallel(nRand, runs, func(i int) []c03Out {
 		rng := c03Rng(3, i)
 		mode := i % 3
 		p := prof
 		p.AllowNoTopo = mode != c03ModeImage
 		p.EmptyTexts = mode != c03ModeImage
+		p.EmptyLocus = mode != c03ModeImage
 		f := c03File{Recs: []c03Rec{c03RandRec(rng, p)}, FinalNL: true}
 		c03SetMode(&f, mode)
 		via := ""
